@@ -103,14 +103,25 @@ func FidelityGate(env *Env, seed uint64) (*FidelityResult, error) {
 }
 
 var timeRE = regexp.MustCompile(`"time":"[^"]*"`)
+var time2RE = regexp.MustCompile(`(?m)^\d{4}/\d\d/\d\d \d\d:\d\d:\d\d `)
 
-func normStderr(b []byte) []byte { return timeRE.ReplaceAll(b, []byte(`"time":"T"`)) }
+// normStderr removes the wall-clock timestamps slog puts on stderr (JSON
+// handler and, before the logger is set up, the default text handler).
+func normStderr(b []byte) []byte {
+	return time2RE.ReplaceAll(timeRE.ReplaceAll(b, []byte(`"time":"T"`)), []byte("T "))
+}
 
 // Fingerprint is everything that must be equal between two executions of
 // one scenario.
 func Fingerprint(r *Result) string {
 	var sb strings.Builder
-	fmt.Fprintf(&sb, "exit=%d sig=%s\nstdout=%q\nstderr=%q\n", r.Exit, r.Signal, r.Stdout, normStderr(r.Stderr))
+	se := normStderr(r.Stderr)
+	if len(se) > 1<<20 {
+		// huge --debug logs are capped by the driver at a byte count that falls
+		// at a timestamp-dependent place; compare their first part only
+		se = se[:64<<10]
+	}
+	fmt.Fprintf(&sb, "exit=%d sig=%s\nstdout=%q\nstderr=%q\n", r.Exit, r.Signal, r.Stdout, se)
 	if r.Journal != nil {
 		jb, _ := json.Marshal(r.Journal)
 		// created-file real paths carry the worker directory
